@@ -61,10 +61,12 @@ static Outcome exec(const Case &c, const HCfg &h, Fault f, bool with_recovery) {
         default: break;
     }
     Shadow sh;
+    OtherIf oif;
     for (size_t i = 0; i < c.ops.size(); i++) {
         const Op &op = c.ops[i];
         if (op.kind == K_ADVANCE) { vp_set_now_ms(vp_now_ms() + (uint64_t)op.arg(0)); o.per_step.push_back({}); continue; }
         if (op.kind == K_SETICON) { w.set_icon(op.blob); o.per_step.push_back({}); continue; }
+        if (op.kind == K_OTHERIF) { oif.step(w, hh, op); o.per_step.push_back({}); continue; }   // a frame for another interface of the host (a fault may hit it there): nothing of it may show here
         Built b = build_frame(h, op, sh);
         if (!b.is_frame) { o.per_step.push_back({}); continue; }
         if (b.frame.size() > h.mtu) b.frame.resize(h.mtu);
@@ -99,11 +101,13 @@ static Outcome exec(const Case &c, const HCfg &h, Fault f, bool with_recovery) {
     Mac m = h.st_real(2);
     Bytes reset = mk_simple(BCAST, m, 0, OP_RESET, BCAST, m, 0);
     (void)w.deliver(P, reset);
+    size_t n_other = 0;   // the other interfaces of the host (if the scenario used any) are reset as well: each of them then holds exactly its record, like a fresh one
+    for (int idx : oif.idxs) if (idx >= 0) { (void)w.deliver(idx, reset); n_other++; }
     size_t pb = vp_live_blocks(), pbytes = vp_live_bytes();
     (void)w.deliver(F, reset);
     size_t fb = vp_live_blocks() - pb, fbytes = vp_live_bytes() - pbytes;
     if (vp_ledger_violations()) { o.err = vp_ledger_last_violation(); return o; }
-    if (pb != 1 || fb != 1 || pbytes != fbytes) { o.err = fmt("after the fault cleared and a Reset, %zu blocks / %zu bytes remain allocated; a fresh interface holds %zu / %zu (leak or lost record)", pb, pbytes, fb, fbytes); return o; }
+    if (pb != 1 + n_other || fb != 1 || pbytes != (1 + n_other) * fbytes) { o.err = fmt("after the fault cleared and a Reset, %zu blocks / %zu bytes remain allocated; a fresh interface holds %zu / %zu (leak or lost record)", pb, pbytes, fb, fbytes); return o; }
     Shadow sc;
     std::vector<Op> cont = continuation(h);
     for (size_t i = 0; i < cont.size(); i++) {
@@ -269,6 +273,9 @@ static std::vector<Case> corpus() {
     }
     add(base(0, 1500), {disc, mk(K_EMIT, {-1, 5, 0xFFFF}, d3), mk(K_EMIT, {-1, 6, 200}, d3)});   // declared counts far beyond what the frame (or any frame) carries - bounded by the MTU, or by 1500 when the MTU cannot be obtained
     add(base(0, 576), {disc, mk(K_EMIT, {-1, 5, 105}, d3)});
+    // two interfaces of the host in use at the same time: the second one's first frames arrive (and may be hit by the fault) in the middle of the first one's session
+    add(base(0, 1500), {disc, mk(K_PROBE, {1, 0, 1, 0}), mk(K_PROBE, {2, 1, 0, 0}), mk(K_OTHERIF, {5, 0, 7, 0}), mk(K_OTHERIF, {2, 0, 1, 0}), mk(K_OTHERIF, {3, 0, 3, 0}), mk(K_QUERY, {-1, 6}),
+                         mk(K_PROBE, {3, 2, 1, 0}), mk(K_OTHERIF, {0, 0, 1, 0}), mk(K_QUERY, {-1, 7}), disc});
     Op disc1 = mk(K_DISCOVER, {1, 0, 2, 3, 0, 0, -1});
     add(base(0, 1500), {disc, disc, disc1, mk(K_QUERY, {-1, 4}), disc, disc1});                       // a second station knocks while the first is the mapper
     add(base(1, 600), {disc, mk(K_QLT, {-1, 7, 0x0E, 0, 0}), mk(K_QLT, {-1, 8, 0x0E, 566, 0})});    // multi-frame icon at a non-1500 MTU
